@@ -380,3 +380,17 @@ add({"name": "VolumeLocation_len", "file": "dfs/opus_cat.h", "anchor": r"unsigne
      "sig": "static unsigned long VolumeLocation_len(const struct VolumeLocation *self)", "pre": VL_PRE, "post": VL_POST, "rules": []})
 add({"name": "VolumeLocation_start_sector", "file": "dfs/opus_cat.h", "anchor": r"unsigned long start_sector\(\) const",
      "sig": "static unsigned long VolumeLocation_start_sector(const struct VolumeLocation *self)", "pre": VL_PRE, "post": VL_POST, "rules": []})
+
+# ---- hexdump.cc (C01 `dump` rendering): 8-byte hex + ASCII rows via the ostream event model -------------------------
+add({"name": "hexdump_bytes", "file": "dfs/hexdump.cc",
+     "anchor": r"bool hexdump_bytes\(std::ostream& os, size_t pos, size_t stride,\s*const DFS::byte\* begin, const DFS::byte\* end\)",
+     "sig": "static bool hexdump_bytes(struct ostream *os, size_t pos, size_t stride, const byte *begin, const byte *end)",
+     "rules": [(r"ostream_flag_saver saver\(os\);", "/* ostream_flag_saver dropped (flags are restored on return) */", 1),
+               (r"DFS::byte", "byte", 1),
+               ("OSTREAM_CHAIN", "os", ">=6"),
+               (r"static_cast<unsigned char>\(", "(unsigned char)(", ">=0"),
+               (r"\bisgraph\(", "verif_isgraph(", 1),
+               (r"(while \(len\))", r"\1 HEXDUMP_ROW_CONTRACT", 1),
+               (r"(for \(size_t i = 0; i < stride; \+\+i\))(\s*\{\s*if \(i < len\)\s*\{ OUT_CHR)", r"\1 HEXDUMP_HEX_CONTRACT\2", 1),
+               (r"(for \(size_t i = 0; i < stride; \+\+i\))(\s*\{\s*char ch)", r"\1 HEXDUMP_ASCII_CONTRACT\2", 1)],
+     "dropped": ["ostream_flag_saver (stream flags restored on return)"]})
